@@ -581,6 +581,9 @@ func c01mutateGrid(rng *Rng, rows []c01row) []c01row {
 			rows[i].r = 0
 		case 1:
 			rows[i].r = rng.Range(0, 9)
+			if rng.Chance(8) {
+				rows[i].r = rng.Pick2([]int{1048577, 2000000}) // bounded by TotalRows in checkSheet
+			}
 		case 2:
 			j := rng.Intn(len(rows))
 			rows[i], rows[j] = rows[j], rows[i]
